@@ -30,6 +30,7 @@ import (
 	"github.com/tikv/pd/server/cluster"
 	"github.com/tikv/pd/server/config"
 	"github.com/tikv/pd/server/core"
+	"github.com/tikv/pd/server/core/storelimit"
 	"github.com/tikv/pd/server/kv"
 
 	"pdverif/internal/coqfmt"
@@ -66,13 +67,18 @@ type lpEntry struct {
 	Labels []kvp
 }
 type rmode struct{ Mode, Label string }
+type lim struct {
+	ID       uint64
+	Add, Rem int64 // thousandths
+}
 type conf struct {
-	Sched sched
-	Repl  repl
-	PD    pdsrv
-	LP    []lpEntry
-	Ver   string
-	RM    rmode
+	Sched  sched
+	Repl   repl
+	PD     pdsrv
+	LP     []lpEntry
+	Ver    string
+	RM     rmode
+	Limits []lim // store-limit part of the schedule section, sorted by store id
 }
 type fault struct {
 	On   bool
@@ -89,6 +95,11 @@ type op struct {
 	Ver     string
 	M       rmode
 	F       fault
+	LM      []lpEntry // labelmap: the whole label-property map
+	ID      uint64    // limit: store id
+	LT      int       // limit / alllimits: 0 add-peer, 1 remove-peer
+	Rate    int64     // thousandths
+	Dflt    int64     // limit: the process-wide default of the other type as the call sees it
 }
 type caseIn struct {
 	Boot conf
@@ -145,7 +156,11 @@ func verCoq(v string) (string, bool) {
 func (m rmode) coq() string { return fmt.Sprintf("(RMode %s %s)", qs(m.Mode), qs(m.Label)) }
 func (c conf) coq() string {
 	v, _ := verCoq(c.Ver)
-	return fmt.Sprintf("(Conf %s %s %s %s %s %s)", c.Sched.coq(), c.Repl.coq(), c.PD.coq(), lpCoq(c.LP), v, c.RM.coq())
+	ls := make([]string, len(c.Limits))
+	for i, l := range c.Limits {
+		ls[i] = fmt.Sprintf("(%s, (%s, %s))", coqfmt.ZU(l.ID), coqfmt.Z(l.Add), coqfmt.Z(l.Rem))
+	}
+	return fmt.Sprintf("(Conf %s %s %s %s %s %s %s)", c.Sched.coq(), c.Repl.coq(), c.PD.coq(), lpCoq(c.LP), v, c.RM.coq(), coqfmt.List(ls))
 }
 func (f fault) coq() string {
 	if !f.On {
@@ -155,6 +170,13 @@ func (f fault) coq() string {
 	return fmt.Sprintf("(Fault %s %d %s)", g, f.Idx, []string{"FBefore", "FAfter"}[f.Kind])
 }
 func (o op) coq() string {
+	if o.K == "reload" {
+		return "HLeader"
+	}
+	return "HSet (" + o.setCoq() + ")"
+}
+
+func (o op) setCoq() string {
 	switch o.K {
 	case "sched":
 		return "OSetSchedule " + o.S.coq() + " " + o.F.coq()
@@ -171,6 +193,12 @@ func (o op) coq() string {
 		return "OSetVersion " + coqfmt.Opt(v, ok) + " " + o.F.coq()
 	case "mode":
 		return "OSetMode " + o.M.coq() + " " + o.F.coq()
+	case "labelmap":
+		return "OSetLabelMap " + lpCoq(o.LM) + " " + o.F.coq()
+	case "limit":
+		return fmt.Sprintf("OSetStoreLimit %s %s %s %s %s", coqfmt.ZU(o.ID), []string{"LAdd", "LRemove"}[o.LT], coqfmt.Z(o.Rate), coqfmt.Z(o.Dflt), o.F.coq())
+	case "alllimits":
+		return fmt.Sprintf("OSetAllLimits %s %s %s", []string{"LAdd", "LRemove"}[o.LT], coqfmt.Z(o.Rate), o.F.coq())
 	}
 	panic("bad op " + o.K)
 }
@@ -190,6 +218,7 @@ type world struct {
 	R      *res.Result
 	// a rule write of this case was applied but reported failed: storage is ahead of what is served
 	ruleUnknown bool
+	unknown     bool // some write of this case was applied but reported failed
 	// the real HTTP API handler (server/api) of this server, driven in-process
 	api   http.Handler
 	steps  []jstep // requests of the current API-path case
@@ -316,6 +345,12 @@ func (w *world) reset(boot conf, useEtcd bool) {
 	opt := w.s.GetPersistOptions()
 	sc := w.base.Schedule.Clone()
 	sc.StoreLimit = map[uint64]config.StoreLimitConfig{}
+	for _, l := range boot.Limits {
+		sc.StoreLimit[l.ID] = config.StoreLimitConfig{AddPeer: float64(l.Add) / 1000, RemovePeer: float64(l.Rem) / 1000}
+	}
+	// the process-wide defaults (a package variable, not part of the configuration) start from their initial values in every case
+	config.DefaultStoreLimit.SetDefaultStoreLimit(storelimit.AddPeer, 15)
+	config.DefaultStoreLimit.SetDefaultStoreLimit(storelimit.RemovePeer, 15)
 	w.applySched(sc, boot.Sched)
 	opt.SetScheduleConfig(sc)
 	rp := w.base.Replication.Clone()
@@ -382,6 +417,14 @@ func (w *world) readConf(sc *config.ScheduleConfig, rp *config.ReplicationConfig
 	}
 	c.Ver = ver.String()
 	c.RM = rmode{rm.ReplicationMode, rm.DRAutoSync.LabelKey}
+	var ids []uint64
+	for id := range sc.StoreLimit {
+		ids = append(ids, id)
+	}
+	sort.Slice(ids, func(i, j int) bool { return ids[i] < ids[j] })
+	for _, id := range ids {
+		c.Limits = append(c.Limits, lim{id, milli(sc.StoreLimit[id].AddPeer, w), milli(sc.StoreLimit[id].RemovePeer, w)})
+	}
 	return c
 }
 
@@ -554,14 +597,9 @@ func (w *world) apiRequest(r *rng.R, o op, tracked bool) (path string, body []by
 		if j := strings.Join(o.R.Labels, ","); len(o.R.Labels) > 0 && (j == "" || len(strings.Split(j, ",")) != len(o.R.Labels)) {
 			return "", nil, false // [""] or a label with a comma: the "a,b" encoding of the API cannot say it
 		}
+		// (before fix 5d52644 an empty label list sent as JSON made SetReplicationConfig refuse later changes: nil vs empty under
+		// reflect.DeepEqual; such requests were kept out of the model-tracked stream)
 		avoid := ""
-		if len(o.R.Labels) == 0 && tracked {
-			// JSON can only say "location-labels": "" which becomes an EMPTY list, the setter of the harness (and the boot
-			// configuration) use nil; SetReplicationConfig compares the default rule's labels with reflect.DeepEqual, which
-			// tells the two apart and then refuses later (valid) changes: observation outside the statement (notes/C18.md),
-			// kept out of the model-tracked stream, present in the model-free one
-			avoid = "location-labels"
-		}
 		return w.sectionRequest(r, "replication", "/config/replicate", w.s.GetReplicationConfig(), t, &config.ReplicationConfig{}, avoid)
 	case "pd":
 		t := w.s.GetPDServerConfig()
@@ -665,7 +703,10 @@ func (w *world) leaderChange(definite bool) snap {
 
 func (w *world) execAPI(r *rng.R, o op, tracked bool) snap {
 	if o.K == "reload" {
-		return w.leaderChange(o.F.Kind == 0)
+		return w.leaderChange(!w.unknown)
+	}
+	if o.F.On && o.F.Kind == 1 {
+		w.unknown = true // a write applied but reported failed: storage may be ahead of what is served from here on
 	}
 	path, body, ok := w.apiRequest(r, o, tracked)
 	if w.forced != nil {
@@ -704,8 +745,14 @@ func (w *world) exec(o op) snap {
 		plan[kvx14.PlanKey(o.F.G, o.F.Idx)] = []kvx14.Kind{kvx14.FailBefore, kvx14.FailAfter}[o.F.Kind]
 	}
 	w.kb.Arm(plan)
+	if o.F.On && o.F.Kind == 1 {
+		w.unknown = true
+	}
 	var err error
 	switch o.K {
+	case "reload":
+		w.kb.Arm(nil)
+		return w.leaderChange(!w.unknown)
 	case "sched":
 		cfg := w.s.GetScheduleConfig()
 		w.applySched(cfg, o.S)
@@ -728,6 +775,12 @@ func (w *world) exec(o op) snap {
 		cfg := *w.s.GetReplicationModeConfig()
 		w.applyMode(&cfg, o.M)
 		err = w.s.SetReplicationModeConfig(cfg)
+	case "labelmap":
+		err = w.s.SetLabelPropertyConfig(lpMap(o.LM))
+	case "limit":
+		err = w.rc.SetStoreLimit(o.ID, []storelimit.Type{storelimit.AddPeer, storelimit.RemovePeer}[o.LT], float64(o.Rate)/1000)
+	case "alllimits":
+		err = w.rc.SetAllStoresLimit([]storelimit.Type{storelimit.AddPeer, storelimit.RemovePeer}[o.LT], float64(o.Rate)/1000)
 	}
 	w.kb.Arm(nil)
 	return w.snapshot(w.errRes(err))
@@ -874,6 +927,29 @@ func genFault(r *rng.R, groups []string, maxIdx int, pct int) fault {
 
 func gen(r *rng.R, cur conf, malformed bool) op {
 	fp := 22
+	if r.Pct(12) {
+		switch r.Pick(30, 45, 25) {
+		case 0: // the whole label-property map at once
+			var m []lpEntry
+			for _, t := range []string{"other", "reject-leader"} { // sorted by type, as the model keeps the map
+				if r.Pct(50) {
+					e := lpEntry{Typ: t}
+					for i := 0; i < 1+r.Intn(2); i++ {
+						e.Labels = append(e.Labels, kvp{pickS(r, "zone", "host"), pickS(r, "z1", "z2")})
+					}
+					m = append(m, e)
+				}
+			}
+			return op{K: "labelmap", LM: m, F: genFault(r, []string{"config"}, 1, fp+10)}
+		case 1:
+			lt := r.Intn(2)
+			other := []storelimit.Type{storelimit.RemovePeer, storelimit.AddPeer}[lt]
+			return op{K: "limit", ID: uint64(1 + r.Intn(3)), LT: lt, Rate: pickZ(r, 1000, 15000, 20500, 60000),
+				Dflt: int64(math.Round(config.DefaultStoreLimit.GetDefaultStoreLimit(other) * 1000)), F: genFault(r, []string{"config"}, 1, fp+10)}
+		default:
+			return op{K: "alllimits", LT: r.Intn(2), Rate: pickZ(r, 5000, 15000, 33000), F: genFault(r, []string{"config"}, 1, fp+10)}
+		}
+	}
 	switch r.Pick(20, 24, 14, 14, 10, 8, 10) {
 	case 0:
 		return op{K: "sched", S: genSched(r, cur.Sched, malformed), F: genFault(r, []string{"config"}, 1, fp)}
@@ -925,6 +1001,12 @@ func defaultBoot(r *rng.R) conf {
 		if r.Pct(30) {
 			c.LP = []lpEntry{{Typ: "reject-leader", Labels: []kvp{{"zone", "z1"}}}}
 		}
+		if r.Pct(35) {
+			c.Limits = []lim{{ID: 1, Add: 15000, Rem: 15000}}
+			if r.Pct(50) {
+				c.Limits = append(c.Limits, lim{ID: 2, Add: 30000, Rem: 20000})
+			}
+		}
 	}
 	return c
 }
@@ -959,7 +1041,11 @@ func (w *world) runCase(in caseIn, r *rng.R, nops int, malformed bool, useEtcd b
 	prev := w.snapshot("ROk")
 	c.Obs = append(c.Obs, prev.Text)
 	w.ruleUnknown = false
+	w.unknown = false
 	step := func(o op) {
+		if o.K == "reload" {
+			w.ruleUnknown = false // the new leader serves the stored rule
+		}
 		if o.K == "repl" && o.F.On && o.F.G == "rule" && o.F.Kind == 1 {
 			w.ruleUnknown = true
 		}
@@ -981,6 +1067,10 @@ func (w *world) runCase(in caseIn, r *rng.R, nops int, malformed bool, useEtcd b
 		return c
 	}
 	for k := 0; k < nops; k++ {
+		if k > 0 && r.Pct(7) {
+			step(op{K: "reload"}) // a leader change in the middle of the history
+			continue
+		}
 		o := gen(r, prev.Served, malformed && r.Pct(40))
 		if in.Via == "api" {
 			o = w.narrow(r, o, prev.Served)
@@ -1004,10 +1094,10 @@ func (w *world) runFree(boot conf, r *rng.R, nops int, useEtcd bool) freeRec {
 	w.steps = nil
 	f := freeRec{Via: "api-free", Boot: boot}
 	cur := w.snapshot("ROk").Served
-	unknown := 0
+	w.unknown = false
 	for k := 0; k < nops; k++ {
 		if r.Pct(12) {
-			o := op{K: "reload", F: fault{Kind: unknown}} // F.Kind 1 = after a write with unknown outcome
+			o := op{K: "reload"}
 			cur = w.execAPI(r, o, false).Served
 			f.Ops = append(f.Ops, o)
 			continue
@@ -1021,9 +1111,6 @@ func (w *world) runFree(boot conf, r *rng.R, nops int, useEtcd bool) freeRec {
 			o = op{K: "mode", M: m, F: genFault(r, []string{"config", "config", "mode"}, 2, 30)}
 		}
 		o = w.narrow(r, o, cur)
-		if o.F.On && o.F.Kind == 1 {
-			unknown = 1
-		}
 		cur = w.execAPI(r, o, false).Served
 		f.Ops = append(f.Ops, o)
 	}
@@ -1091,6 +1178,7 @@ func main() {
 			// an evidence file of the API-path class: run the same operations again through the handler and show every request
 			w.reset(fr.Replay.Boot, false)
 			w.steps = nil
+			w.unknown = false
 			for i, o := range fr.Replay.Ops {
 				if i < len(fr.Replay.Steps) && !strings.HasPrefix(fr.Replay.Steps[i].Path, "setter:") {
 					w.forced = &fr.Replay.Steps[i] // the very request of the recorded run
